@@ -14,6 +14,11 @@
      Q_apos     [A-Za-z0-9] ' [sS] LA   (`a's` is one Word for the lexer, `A'S` Word Apostrophe Word)
      Q_hex      0 [xX] [0-9A-Fa-f]      (`0x1` is a hexadecimal Number, `0X1` a Number and a Word)
      LA         = end of text, or a character that is neither a word character nor an ASCII digit of the class
+     LOOK-BEHIND  a pattern only counts where the character BEFORE it is not a word character (or the text starts):
+                the lexer never starts a token at an ASCII letter or digit that follows a word character
+                (alnum_lex_binv: a Word ends before a character that is no ASCII letter or digit, so does a
+                Hostname; a Number ends in a digit or a period — parse_f64_ends; blanks, punctuation and unclaimed
+                characters are no word characters), so `John's`, `this.is`, `MP3s` are NOT excluded
 
      alnum text   every character is a word character (not an ASCII digit), an ASCII digit (that the tables call
                   numeric), a blank, a punctuation / quote character other than  @ : [ ’ ‘ ＇  — period and
@@ -57,9 +62,12 @@ Definition q_hex (s : text) : bool :=
   | _ => false
   end.
 Definition q_here (u : uni) (s : text) : bool := q_plural u s || q_apos u s || q_hex s.
-Fixpoint ctx_ok3 (u : uni) (s : text) : bool :=
-  match s with [] => true | _ :: r => negb (q_here u s) && ctx_ok3 u r end.
-Definition alnum_text (u : uni) (s : text) : bool := forallb (char3 u) s && ctx_ok3 u s.
+(* look-behind: the character before a pattern is not a word character *)
+Definition start_ok (u : uni) (prev : option N) : bool :=
+  match prev with None => true | Some p => negb (wch u p) end.
+Fixpoint ctx_ok3 (u : uni) (prev : option N) (s : text) : bool :=
+  match s with [] => true | c :: r => negb (start_ok u prev && q_here u s) && ctx_ok3 u (Some c) r end.
+Definition alnum_text (u : uni) (s : text) : bool := forallb (char3 u) s && ctx_ok3 u None s.
 
 (* ---------- keys of x and of the hexadecimal letters, the float characters ---------- *)
 Lemma is_x_key c : is_x c = (ickey c =? 120)%N.
@@ -150,30 +158,167 @@ Lemma parse_f64_alt s :
                 let '(fp, r2) := frac_part r1 in f64_tail neg ip fp r2.
 Proof. reflexivity. Qed.
 
+(* ---------- a string that parses as a float ends in a digit or a period ---------- *)
+Definition ends_ok (l : text) : Prop := exists q x, l = q ++ [x] /\ (is_ascii_digit x = true \/ x = 46%N).
+Lemma ends_ok_app l1 l2 : ends_ok l2 -> ends_ok (l1 ++ l2).
+Proof. intros (q & x & -> & H). exists (l1 ++ q), x. split; [apply app_assoc|exact H]. Qed.
+Lemma ends_ok_cons a l : ends_ok l -> ends_ok (a :: l).
+Proof. intros H. apply (ends_ok_app [a] l H). Qed.
+
+Lemma span_digits_app : forall l, l = fst (span_digits l) ++ snd (span_digits l) /\
+  Forall (fun x => is_ascii_digit x = true) (fst (span_digits l)).
+Proof.
+  induction l as [|c t [IH1 IH2]]; [split; [reflexivity|constructor]|]. cbn [span_digits].
+  destruct (is_ascii_digit c) eqn:D.
+  - destruct (span_digits t) as [d r]. cbn [fst snd] in *. split; [cbn [app]; f_equal; exact IH1|constructor; assumption].
+  - cbn [fst snd]. split; [reflexivity|constructor].
+Qed.
+
+Lemma digits_ends d : d <> [] -> Forall (fun x => is_ascii_digit x = true) d -> ends_ok d.
+Proof.
+  intros Hne HF. destruct (exists_last Hne) as [q [x E]]. subst d. exists q, x. split; [reflexivity|left].
+  rewrite Forall_forall in HF. apply HF. apply in_or_app. right. now left.
+Qed.
+
+Lemma split_sign_app l : l = snd (split_sign l) \/ exists x, l = x :: snd (split_sign l).
+Proof.
+  destruct l as [|c t]; [left; reflexivity|]. unfold split_sign.
+  destruct (ceq c 43); [right; eexists; reflexivity|]. destruct (ceq c 45); [right; eexists; reflexivity|left; reflexivity].
+Qed.
+
+Lemma ends_ok_sign l : ends_ok (snd (split_sign l)) -> ends_ok l.
+Proof. intros H. destruct (split_sign_app l) as [E|[x E]]; rewrite E; [exact H|apply ends_ok_cons; exact H]. Qed.
+
+Lemma parse_exp_ends t e : parse_exp t = Some e -> ends_ok t.
+Proof.
+  unfold parse_exp. intros H. apply ends_ok_sign. destruct (split_sign t) as [neg l1]. cbn [snd].
+  destruct (span_digits_app l1) as [DA DF]. destruct (span_digits l1) as [ds r]. cbn [fst snd] in DA, DF.
+  destruct ds as [|y ds]; [discriminate|]. destruct r; [|discriminate]. rewrite app_nil_r in DA. rewrite DA.
+  apply digits_ends; [discriminate|exact DF].
+Qed.
+
+Lemma frac_part_app r1 :
+  (fst (frac_part r1) = [] /\ snd (frac_part r1) = r1) \/
+  (r1 = 46%N :: fst (frac_part r1) ++ snd (frac_part r1) /\ Forall (fun x => is_ascii_digit x = true) (fst (frac_part r1))).
+Proof.
+  destruct r1 as [|c t]; [left; split; reflexivity|]. unfold frac_part. destruct (ceq c 46) eqn:E.
+  - right. unfold ceq in E. apply N.eqb_eq in E. subst c. destruct (span_digits_app t) as [A F]. split; [f_equal; exact A|exact F].
+  - left. split; reflexivity.
+Qed.
+
+Lemma f64_tail_some neg ip fp r2 v : f64_tail neg ip fp r2 = Some v ->
+  (ip <> [] \/ fp <> []) /\ (r2 = [] \/ exists c t e, r2 = c :: t /\ parse_exp t = Some e).
+Proof.
+  unfold f64_tail. intros H.
+  assert (X : r2 = [] \/ exists c t e, r2 = c :: t /\ parse_exp t = Some e \/ ip = [] /\ fp = []).
+  { destruct r2 as [|c t]; [now left|right]. exists c, t.
+    destruct ip, fp; cbv zeta in H; try discriminate;
+      (destruct (ceq c 101 || ceq c 69); [|discriminate]); (destruct (parse_exp t) as [e|]; [|discriminate]);
+      exists e; left; split; reflexivity. }
+  split.
+  - destruct ip; [|left; discriminate]. destruct fp; [discriminate|right; discriminate].
+  - destruct X as [->|(c & t & e & [[-> E]|[-> ->]])]; [now left| |discriminate]. right. exists c, t, e. split; [reflexivity|exact E].
+Qed.
+
+Lemma parse_f64_ends p v : parse_f64 p = Some v -> ends_ok p.
+Proof.
+  rewrite parse_f64_alt. intros H. apply ends_ok_sign. destruct (split_sign p) as [neg s1]. cbn [snd].
+  destruct (span_digits_app s1) as [DA DF]. destruct (span_digits s1) as [ip r1]. cbn [fst snd] in DA, DF.
+  pose proof (frac_part_app r1) as FA. destruct (frac_part r1) as [fp r2]. cbn [fst snd] in FA.
+  destruct (f64_tail_some _ _ _ _ _ H) as [Hne Hr2]. rewrite DA.
+  assert (R2 : r2 <> [] -> ends_ok r2).
+  { intros Hn. destruct Hr2 as [E0|(c & t & e & -> & E)]; [congruence|]. apply ends_ok_cons. apply (parse_exp_ends t e E). }
+  destruct FA as [[-> E2]|[-> FF]].
+  - subst r1. destruct r2 as [|c t].
+    + rewrite app_nil_r. apply digits_ends; [|exact DF]. destruct Hne as [Hne|Hne]; [exact Hne|congruence].
+    + apply ends_ok_app. apply R2. discriminate.
+  - apply ends_ok_app. destruct r2 as [|c t].
+    + rewrite app_nil_r. destruct fp as [|y fp]; [exists [], 46%N; split; [reflexivity|now right]|].
+      apply ends_ok_cons. apply digits_ends; [discriminate|exact FF].
+    + apply ends_ok_cons. apply ends_ok_app. apply R2. discriminate.
+Qed.
+
+Lemma nth_error_firstn_lt {A} : forall n i (l : list A), i < n -> nth_error (firstn n l) i = nth_error l i.
+Proof.
+  induction n as [|n IH]; intros i l Hi; [lia|]. destruct l as [|x l]; [destruct i; reflexivity|].
+  destruct i as [|i]; [reflexivity|]. cbn [firstn nth_error]. apply IH. lia.
+Qed.
+
+Lemma longest_float_some : forall n0 s1 n k, longest_float n0 s1 = Some (n, k) ->
+  exists m v, n = S m /\ n <= n0 /\ parse_finite (firstn n s1) = Some v.
+Proof.
+  induction n0 as [|m0 IH]; intros s1 n k H; [discriminate|]. cbn [longest_float] in H. cbv zeta in H.
+  destruct (parse_finite (firstn (S m0) s1)) as [[[neg mant] ex]|] eqn:E.
+  - injection H as <- _. exists m0, (neg, mant, ex). split; [reflexivity|]. split; [lia|exact E].
+  - destruct (IH s1 n k H) as (m & v & -> & Hle & Hv). exists m, v. split; [reflexivity|]. split; [lia|exact Hv].
+Qed.
+
+Lemma skipn_count_while {A} (p : A -> bool) : forall s c' t, skipn (count_while p s) s = c' :: t -> p c' = false.
+Proof.
+  induction s as [|x s IH]; intros c' t H; [discriminate|]. cbn [count_while] in H. destruct (p x) eqn:E.
+  - cbn [skipn] in H. eapply IH. exact H.
+  - cbn [skipn] in H. injection H as -> _. exact E.
+Qed.
+
+Lemma count_while_nth {A} (p : A -> bool) : forall s i x, i < count_while p s -> nth_error s i = Some x -> p x = true.
+Proof.
+  induction s as [|y s IH]; intros i x Hi Hx; [cbn in Hi; lia|]. cbn [count_while] in Hi. destruct (p y) eqn:E; [|lia].
+  destruct i as [|i]; [cbn in Hx; injection Hx as <-; exact E|]. cbn [nth_error] in Hx. apply (IH i x); [lia|exact Hx].
+Qed.
+
+Lemma hostname_token_len s n k : lex_hostname_token s = Some (n, k) -> n = count_while host_char s.
+Proof.
+  unfold lex_hostname_token, lex_hostname. destruct s as [|c r]; [discriminate|].
+  destruct (is_ascii_alphanumeric c); [|discriminate].
+  destruct (count_while host_char (c :: r) <=? 1); [discriminate|].
+  destruct (negb _); [discriminate|].
+  destruct (nth_error _ _) as [x|]; [destruct (ceq x 46); [discriminate|]|]; intros H; injection H as <- _; reflexivity.
+Qed.
+
 Section Alnum.
   Variable u : uni.
-  Definition Alnum (s : text) : Prop := Forall (fun c => char3 u c = true) s /\ ctx_ok3 u s = true.
+  Definition Alnum (s : text) : Prop := Forall (fun c => char3 u c = true) s /\ ctx_ok3 u None s = true.
+  (* the state of the parse loop: the remaining text, the character before it, and the invariant that a token
+     never starts at an ASCII letter or digit right after a word character *)
+  Definition binv (prev : option N) (s : text) : Prop :=
+    match prev with
+    | Some p => match s with c :: _ => wch u p = true -> is_ascii_alphanumeric c = false | [] => True end
+    | None => True
+    end.
+  Definition St (prev : option N) (s : text) : Prop :=
+    Forall (fun c => char3 u c = true) s /\ ctx_ok3 u prev s = true /\ binv prev s.
+  Definition adv (prev : option N) (n : nat) (s : text) : option N :=
+    match n with 0 => prev | S m => nth_error s m end.
+
+  Lemma Alnum_St s : Alnum s -> St None s.
+  Proof. intros [H1 H2]. split; [exact H1|]. split; [exact H2|exact I]. Qed.
 
   Lemma alnum_text_Alnum s : alnum_text u s = true <-> Alnum s.
   Proof.
     unfold alnum_text, Alnum. rewrite Bool.andb_true_iff, forallb_forall, Forall_forall. reflexivity.
   Qed.
 
-  Lemma ctx_ok3_skipn n : forall s, ctx_ok3 u s = true -> ctx_ok3 u (skipn n s) = true.
+  Lemma ctx_ok3_adv : forall n prev s, ctx_ok3 u prev s = true -> ctx_ok3 u (adv prev n s) (skipn n s) = true.
   Proof.
-    induction n as [|n IH]; intros s H; [exact H|]. destruct s as [|c r]; [exact H|].
-    cbn [skipn]. apply IH. cbn [ctx_ok3] in H. apply andb_prop in H. apply H.
+    induction n as [|n IH]; intros prev s H; [exact H|]. destruct s as [|c r]; [reflexivity|].
+    cbn [ctx_ok3] in H. apply andb_prop in H. destruct H as [_ H].
+    specialize (IH (Some c) r H). cbn [skipn]. destruct n as [|m]; exact IH.
   Qed.
 
-  Lemma ctx_ok3_here c r : ctx_ok3 u (c :: r) = true ->
+  (* no pattern at a position the lexer can reach *)
+  Lemma ctx_ok3_here prev c r : St prev (c :: r) ->
     q_plural u (c :: r) = false /\ q_apos u (c :: r) = false /\ q_hex (c :: r) = false.
   Proof.
-    cbn [ctx_ok3]. intros H. apply andb_prop in H. destruct H as [H _]. apply negb_true_iff in H.
-    unfold q_here in H. apply orb_false_elim in H. destruct H as [H H3]. apply orb_false_elim in H. tauto.
+    intros [_ [H HB]]. cbn [ctx_ok3] in H. apply andb_prop in H. destruct H as [H _]. apply negb_true_iff in H.
+    destruct (start_ok u prev) eqn:SO.
+    - cbn [andb] in H. unfold q_here in H. apply orb_false_elim in H. destruct H as [H H3]. apply orb_false_elim in H. tauto.
+    - destruct prev as [p|]; [|discriminate]. cbn [start_ok] in SO. apply negb_false_iff in SO.
+      cbn [binv] in HB. specialize (HB SO).
+      assert (C48 : ceq c 48 = false).
+      { unfold ceq. destruct (N.eqb_spec c 48) as [->|_]; [discriminate HB|reflexivity]. }
+      unfold q_plural, q_apos, q_hex. rewrite HB, C48.
+      destruct r as [|c1 [|c2 r']]; repeat split; reflexivity.
   Qed.
-
-  Lemma Alnum_skipn n s : Alnum s -> Alnum (skipn n s).
-  Proof. intros [H1 H2]. split; [apply Forall_skipn_c18; exact H1|apply ctx_ok3_skipn; exact H2]. Qed.
 
   Lemma dch_parts c : dch u c = true -> is_ascii_digit c = true /\ u_numeric u c = true.
   Proof. unfold dch. intros H. apply andb_prop in H. exact H. Qed.
@@ -197,8 +342,8 @@ Section Alnum.
     congruence.
   Qed.
 
-  Lemma Alnum_noc s b : Alnum s -> In b bad3 -> noc b s.
-  Proof. intros [H _] Hb x Hx. rewrite Forall_forall in H. apply char3_not_bad; auto. Qed.
+  Lemma Alnum_noc s b : Forall (fun c => char3 u c = true) s -> In b bad3 -> noc b s.
+  Proof. intros H Hb x Hx. rewrite Forall_forall in H. apply char3_not_bad; auto. Qed.
 
   Lemma alnum_digit_split c : is_ascii_alphanumeric c = false -> is_ascii_alphabetic c = false /\ is_ascii_digit c = false.
   Proof. unfold is_ascii_alphanumeric. intros H. apply orb_false_elim in H. exact H. Qed.
@@ -246,12 +391,12 @@ Section Alnum.
   Proof. intros W. destruct (wch_parts u c W) as [W1 _]. apply wchar_lw. exact W1. Qed.
 
   (* ================= lex_plural_digit on the class ================= *)
-  Lemma plural3 (c : N) (r : list N) : Alnum (c :: r) ->
+  Lemma plural3 prev (c : N) (r : list N) : St prev (c :: r) ->
     lex_plural_digit u (c :: r) = None \/
     (is_ascii_digit c = false /\ lex_plural_digit u (c :: r) = Some (2, KWord) /\
      lex_hostname_token (c :: r) = None /\ count_while (lw u) (c :: r) = 2).
   Proof.
-    intros HD. pose proof HD as [HP HC]. destruct (ctx_ok3_here c r HC) as [Q1 [Q2 _]].
+    intros HD. pose proof HD as [HP [HC _]]. destruct (ctx_ok3_here prev c r HD) as [Q1 [Q2 _]].
     unfold lex_plural_digit.
     destruct (is_ascii_alphanumeric c) eqn:Ac; cbn [negb]; [|now left].
     inversion HP as [|c' r' Pc Pr]; subst.
@@ -287,9 +432,9 @@ Section Alnum.
   Qed.
 
   (* ================= lex_hex_number, lex_long_decade decline on the class ================= *)
-  Lemma hex3 (c : N) (r : list N) : Alnum (c :: r) -> lex_hex_number u (c :: r) = None.
+  Lemma hex3 prev (c : N) (r : list N) : St prev (c :: r) -> lex_hex_number u (c :: r) = None.
   Proof.
-    intros [_ HC]. destruct (ctx_ok3_here c r HC) as [_ [_ Q3]].
+    intros HD. destruct (ctx_ok3_here prev c r HD) as [_ [_ Q3]].
     unfold lex_hex_number. destruct r as [|c1 [|c2 r]]; try reflexivity.
     unfold q_hex, is_x in Q3.
     destruct (ceq c 48); cbn [negb orb andb] in *; [|reflexivity].
@@ -297,18 +442,22 @@ Section Alnum.
     rewrite Q3. reflexivity.
   Qed.
 
-  Lemma decade3 (c : N) (r : list N) : Alnum (c :: r) -> lex_long_decade u (c :: r) = None.
+  Lemma decade3 prev (c : N) (r : list N) : St prev (c :: r) -> lex_long_decade u (c :: r) = None.
   Proof.
-    intros [_ HC]. unfold lex_long_decade.
+    intros [_ [HC _]]. unfold lex_long_decade.
     destruct r as [|c1 [|c2 [|c3 [|c4 rest]]]]; try reflexivity.
     destruct (negb (ceq c 49) && negb (ceq c 50)); [reflexivity|].
     destruct (negb (is_ascii_digit c1)); [reflexivity|].
-    destruct (negb (is_ascii_digit c2)); [reflexivity|].
+    destruct (is_ascii_digit c2) eqn:D2; cbn [negb]; [|reflexivity].
     destruct (ceq c3 48) eqn:E3; cbn [negb]; [|reflexivity].
     destruct (ceq c4 115) eqn:E4; cbn [negb]; [|reflexivity].
     unfold ceq in E3, E4. apply N.eqb_eq in E3, E4. subst c3 c4.
-    pose proof (ctx_ok3_skipn 3 _ HC) as H3. cbn [skipn] in H3.
-    destruct (ctx_ok3_here _ _ H3) as [Q1 _]. unfold q_plural in Q1.
+    pose proof (ctx_ok3_adv 3 prev _ HC) as H3. cbn [adv nth_error skipn] in H3.
+    cbn [ctx_ok3] in H3. apply andb_prop in H3. destruct H3 as [H3 _]. apply negb_true_iff in H3.
+    assert (W2 : wch u c2 = false) by (unfold wch; rewrite D2; apply andb_false_r).
+    cbn [start_ok] in H3. rewrite W2 in H3. cbn [negb andb] in H3.
+    unfold q_here in H3. apply orb_false_elim in H3. destruct H3 as [H3 _]. apply orb_false_elim in H3.
+    destruct H3 as [Q1 _]. unfold q_plural in Q1.
     change (is_ascii_alphanumeric 48) with true in Q1. change (is_s 115) with true in Q1.
     change (is_ascii_digit 48) with true in Q1. cbn [andb orb] in Q1. rewrite andb_true_r in Q1.
     destruct rest as [|d t]; [cbn [la3] in Q1; discriminate|].
@@ -333,14 +482,14 @@ Section Alnum.
   Lemma not_alnum_not_dch c : is_ascii_alphanumeric c = false -> dch u c = false.
   Proof. intros H. destruct (alnum_digit_split c H) as [_ D]. unfold dch. rewrite D. reflexivity. Qed.
 
-  Lemma lex_token_alnum (c : N) (r : list N) : Alnum (c :: r) -> lex_token u (c :: r) = alnum_lex (c :: r).
+  Lemma lex_token_alnum prev (c : N) (r : list N) : St prev (c :: r) -> lex_token u (c :: r) = alnum_lex (c :: r).
   Proof.
     intros HD. pose proof HD as [HP _]. inversion HP as [|c' r' Pc Pr]; subst.
     assert (N91 : ceq c 91 = false).
     { unfold ceq. rewrite N.eqb_sym. apply (char3_not_bad c 91 Pc). cbn; tauto. }
-    assert (U : lex_url u (c :: r) = None) by (apply url_none, Alnum_noc; [exact HD|cbn; tauto]).
-    assert (E : lex_email_address u (c :: r) = None) by (apply email_none, Alnum_noc; [exact HD|cbn; tauto]).
-    pose proof (hex3 c r HD) as HX. pose proof (decade3 c r HD) as DX.
+    assert (U : lex_url u (c :: r) = None) by (apply url_none, Alnum_noc; [exact HP|cbn; tauto]).
+    assert (E : lex_email_address u (c :: r) = None) by (apply email_none, Alnum_noc; [exact HP|cbn; tauto]).
+    pose proof (hex3 prev c r HD) as HX. pose proof (decade3 prev c r HD) as DX.
     destruct (char3_parts c Pc) as [_ Hcl].
     unfold lex_token. rewrite (regexish_none u c r N91), HX, DX, U, E.
     cbn [or_else].
@@ -352,7 +501,7 @@ Section Alnum.
       cbn [or_else]. unfold alnum_lex. rewrite W.
       assert (LW : lex_word u (c :: r) = Some (count_while (lw u) (c :: r), KWord)).
       { unfold lex_word. fold (lw u). rewrite (count_while_first_true (lw u) c r (wchar_lw u c Wc)). reflexivity. }
-      destruct (plural3 c r HD) as [P|[_ [P [H0 C2]]]]; rewrite P; cbn [or_else].
+      destruct (plural3 prev c r HD) as [P|[_ [P [H0 C2]]]]; rewrite P; cbn [or_else].
       + rewrite LW. reflexivity.
       + rewrite H0, C2. reflexivity.
     - destruct Hcl as [W'|[X|[I|O]]]; [congruence| | |].
@@ -365,7 +514,7 @@ Section Alnum.
         { unfold lex_word. fold (lw u).
           assert (Lc : lw u c = true) by (unfold lw; rewrite Dc; apply orb_true_r).
           rewrite (count_while_first_true (lw u) c r Lc). reflexivity. }
-        destruct (plural3 c r HD) as [P|[Dn _]]; [|congruence]. rewrite P, LW. cbn [or_else]. reflexivity.
+        destruct (plural3 prev c r HD) as [P|[Dn _]]; [|congruence]. rewrite P, LW. cbn [or_else]. reflexivity.
       + destruct (ichar_parts u c I) as [_ [_ [Na Hk]]]. unfold alnum_lex. rewrite W, (not_alnum_not_dch c Na).
         destruct (ws3 c) eqn:B.
         * apply ws3_true in B. destruct B as [->|[->| ->]]; reflexivity.
@@ -573,29 +722,139 @@ Section Alnum.
         rewrite (Rl_tail_kind u a c Hac W). reflexivity.
   Qed.
 
-  Lemma plain_loop_alnum : forall fuel cursor s s',
-    Forall2 (Rl u) s s' -> Alnum s -> Alnum s' ->
+  (* ================= where a token ends ================= *)
+  Lemma lex_number_last s n k : lex_number u s = Some (n, k) ->
+    exists m p, n = S m /\ nth_error s m = Some p /\ (is_ascii_digit p = true \/ p = 46%N).
+  Proof.
+    unfold lex_number. destruct s as [|c0 r]; [discriminate|]. destruct (negb (u_numeric u c0)); [discriminate|]. cbv zeta.
+    set (src := c0 :: r). set (limit := count_while is_float_char src).
+    destruct (rposition is_ascii_digit (firstn limit src)) as [e|]; [|discriminate].
+    set (s1 := firstn (S e) src). intros H.
+    destruct (longest_float_some _ _ _ _ H) as (m & v & -> & Hle & Hv).
+    assert (Hp : exists v', parse_f64 (firstn (S m) s1) = Some v').
+    { unfold parse_finite in Hv. destruct (parse_f64 (firstn (S m) s1)) as [v'|]; [eauto|discriminate]. }
+    destruct Hp as [v' Hp]. destruct (parse_f64_ends _ _ Hp) as (q & x & E & Hx).
+    assert (Lq : length q = m).
+    { assert (L : length (firstn (S m) s1) = S m) by (rewrite firstn_length; lia).
+      rewrite E, app_length in L. cbn [length] in L. lia. }
+    exists m, x. split; [reflexivity|]. split; [|exact Hx].
+    assert (N1 : nth_error (firstn (S m) s1) m = Some x).
+    { rewrite E, nth_error_app2 by lia. rewrite Lq, Nat.sub_diag. reflexivity. }
+    rewrite nth_error_firstn_lt in N1 by lia. unfold s1 in N1. rewrite nth_error_firstn_lt in N1; [exact N1|].
+    assert (length s1 <= S e) by (unfold s1; apply firstn_le_length). lia.
+  Qed.
+
+  Lemma wch_digit_false p : is_ascii_digit p = true -> wch u p = false.
+  Proof. intros D. unfold wch. rewrite D. apply andb_false_r. Qed.
+  Lemma wch_nopunct p : nopunct p = false -> wch u p = false.
+  Proof.
+    intros Np. destruct (wch u p) eqn:W; [|reflexivity]. destruct (wch_parts u p W) as [W1 _].
+    destruct (wchar_parts u p W1) as [_ [_ [_ [X _]]]]. congruence.
+  Qed.
+  Lemma wch_ws p : ws3 p = true -> wch u p = false.
+  Proof.
+    intros Np. destruct (wch u p) eqn:W; [|reflexivity]. destruct (wch_parts u p W) as [W1 _].
+    destruct (wchar_parts u p W1) as [_ [_ [_ [_ X]]]]. congruence.
+  Qed.
+
+  Lemma binv_next p' s' : (forall c' t, s' = c' :: t -> is_ascii_alphanumeric c' = false) -> binv p' s'.
+  Proof.
+    intros H. destruct p' as [p|]; [|exact I]. destruct s' as [|c' t]; [exact I|]. cbn [binv]. intros _. apply (H c' t eq_refl).
+  Qed.
+  Lemma binv_last p s' : wch u p = false -> binv (Some p) s'.
+  Proof. intros H. cbn [binv]. destruct s'; [exact I|]. intros W. congruence. Qed.
+
+  Lemma char3_not_lw c : char3 u c = true -> lw u c = false -> is_ascii_alphanumeric c = false.
+  Proof.
+    intros H L. destruct (char3_parts c H) as [_ [W|[X|[I|O]]]].
+    - rewrite (wch_lw c W) in L. discriminate.
+    - destruct (dch_parts c X) as [D _]. unfold lw in L. rewrite D, orb_true_r in L. discriminate.
+    - destruct (ichar_parts u c I) as [_ [_ [I3 _]]]. exact I3.
+    - destruct (ochar_parts u c O) as [_ [_ [O3 _]]]. exact O3.
+  Qed.
+
+  (* a Hostname ends before a character that is no host character, a Word before one that is no part of a word *)
+  Lemma host_or_word_binv prev s n k : Forall (fun c => char3 u c = true) s ->
+    or_else (lex_hostname_token s) (Some (count_while (lw u) s, KWord)) = Some (n, k) ->
+    binv (adv prev n s) (skipn n s).
+  Proof.
+    intros HP H. apply binv_next. intros c' t E.
+    destruct (lex_hostname_token s) as [[n' k']|] eqn:HT; cbn [or_else] in H; injection H as Hn _; subst n.
+    - rewrite (hostname_token_len s n' k' HT) in E. apply skipn_count_while in E.
+      unfold host_char in E. apply orb_false_elim in E. destruct E as [E _]. apply orb_false_elim in E. apply E.
+    - pose proof E as E'. apply skipn_count_while in E. apply char3_not_lw; [|exact E].
+      assert (Hin : In c' s) by (eapply In_skipn_c18; rewrite E'; now left).
+      rewrite Forall_forall in HP. apply HP. exact Hin.
+  Qed.
+
+  (* the token-end invariant: after every token of the class, the next token does not start at an ASCII letter or digit
+     that follows a word character *)
+  Lemma alnum_lex_binv prev s n k : Forall (fun c => char3 u c = true) s -> alnum_lex s = Some (n, k) ->
+    binv (adv prev n s) (skipn n s).
+  Proof.
+    intros HP H. destruct s as [|c0 r]; [discriminate|]. unfold alnum_lex in H.
+    destruct (wch u c0) eqn:W; [apply host_or_word_binv with (k := k); assumption|].
+    destruct (dch u c0) eqn:X.
+    - destruct (lex_number u (c0 :: r)) as [[n' k']|] eqn:LN; cbn [or_else] in H.
+      + injection H as Hn _. subst n'. destruct (lex_number_last _ _ _ LN) as (m & p & -> & Np & Hp).
+        cbn [adv]. rewrite Np. apply binv_last.
+        destruct Hp as [D| ->]; [apply wch_digit_false; exact D|apply wch_nopunct; reflexivity].
+      + apply host_or_word_binv with (k := k); assumption.
+    - assert (Blank : forall kk, ws3 kk = true -> ceq kk c0 = true -> forall k0,
+                Some (count_while (ceq kk) (c0 :: r), k0) = Some (n, k) -> binv (adv prev n (c0 :: r)) (skipn n (c0 :: r))).
+      { intros kk Hk Hc k0 E. injection E as Hn _. subst n. cbn [count_while]. rewrite Hc. cbn [adv]. unfold text, char in *.
+        destruct (nth_error (c0 :: r) (count_while (ceq kk) r)) as [x|] eqn:Nx; [|exact I].
+        apply binv_last. assert (Px : ceq kk x = true).
+        { apply (count_while_nth (ceq kk) (c0 :: r) (count_while (ceq kk) r) x); [cbn [count_while]; rewrite Hc; lia|exact Nx]. }
+        unfold ceq in Px. apply N.eqb_eq in Px. subst x. apply wch_ws. exact Hk. }
+      destruct (ceq 9 c0) eqn:E9; [apply (Blank 9%N eq_refl E9 _ H)|].
+      destruct (ceq 32 c0) eqn:E32; [apply (Blank 32%N eq_refl E32 _ H)|].
+      destruct (ceq 10 c0) eqn:E10; [apply (Blank 10%N eq_refl E10 _ H)|].
+      assert (One : n = 1).
+      { destruct (mem_n c0 quote_chars); [injection H as <- _; reflexivity|].
+        destruct (punct_from_char c0); injection H as <- _; reflexivity. }
+      subst n. cbn [adv nth_error]. apply binv_last. exact W.
+  Qed.
+
+  Lemma St_adv prev s n k : St prev s -> alnum_lex s = Some (n, k) -> St (adv prev n s) (skipn n s).
+  Proof.
+    intros [HP [HC _]] H. split; [apply Forall_skipn_c18; exact HP|].
+    split; [apply ctx_ok3_adv; exact HC|apply (alnum_lex_binv prev s n k HP H)].
+  Qed.
+
+  Definition orel (p p' : option N) : Prop :=
+    match p, p' with None, None => True | Some a, Some c => Rl u a c | _, _ => False end.
+  Lemma adv_rel prev prev' n s s' : orel prev prev' -> Forall2 (Rl u) s s' -> orel (adv prev n s) (adv prev' n s').
+  Proof.
+    intros Ho HF. destruct n as [|m]; [exact Ho|]. cbn [adv]. pose proof (nth_error_Forall2 _ _ _ HF m) as X. unfold text, char in *.
+    destruct (nth_error s m); destruct (nth_error s' m); cbn [orel]; try contradiction; try exact X; exact I.
+  Qed.
+
+  Lemma plain_loop_alnum : forall fuel cursor prev prev' s s',
+    orel prev prev' -> Forall2 (Rl u) s s' -> St prev s -> St prev' s' ->
     plain_loop u fuel cursor s' = plain_loop u fuel cursor s.
   Proof.
-    induction fuel as [|f IH]; intros cursor s s' HR HP HP'.
+    induction fuel as [|f IH]; intros cursor prev prev' s s' Ho HR HP HP'.
     - destruct HR; reflexivity.
     - destruct HR as [|a c l l' Hac Hl]; [reflexivity|].
       assert (HF : Forall2 (Rl u) (a :: l) (c :: l')) by (constructor; assumption).
-      cbn [plain_loop]. rewrite (lex_token_alnum c l' HP'), (lex_token_alnum a l HP), (alnum_lex_congr _ _ HF).
-      destruct (alnum_lex (a :: l)) as [[n k]|]; [|reflexivity].
+      cbn [plain_loop]. rewrite (lex_token_alnum prev' c l' HP'), (lex_token_alnum prev a l HP).
+      pose proof (alnum_lex_congr _ _ HF) as EL. rewrite EL.
+      destruct (alnum_lex (a :: l)) as [[n k]|] eqn:AL; [|reflexivity].
       destruct (span_new cursor (cursor + n)) as [sp|]; [|reflexivity]. cbn [bind].
       match goal with |- bind ?x _ = bind ?y _ => replace x with y; [reflexivity|] end.
-      symmetry. apply IH.
+      symmetry. apply (IH _ (adv prev n (a :: l)) (adv prev' n (c :: l'))).
+      + apply adv_rel; assumption.
       + apply Forall2_skipn_c18. exact HF.
-      + apply Alnum_skipn. exact HP.
-      + apply Alnum_skipn. exact HP'.
+      + apply (St_adv prev _ n k HP AL).
+      + apply (St_adv prev' _ n k HP'). exact EL.
   Qed.
 
   Theorem plain_parse_alnum (s s' : text) : Forall2 (Rl u) s s' -> Alnum s -> Alnum s' -> plain_parse u s' = plain_parse u s.
   Proof.
     intros HR HP HP'. unfold plain_parse.
     assert (L : length s' = length s) by (symmetry; exact (Forall2_length_c18 _ _ _ HR)).
-    rewrite L. apply plain_loop_alnum; assumption.
+    rewrite L. apply (plain_loop_alnum _ _ None None); [exact I|exact HR|apply Alnum_St; exact HP|apply Alnum_St; exact HP'].
   Qed.
 
   Theorem document_plain_alnum (s s' : text) : Forall2 (Rl u) s s' -> Alnum s -> Alnum s' ->
@@ -633,13 +892,24 @@ Section Alnum.
       (proj1 (Rl_digit c2 d2 H2)). reflexivity.
   Qed.
 
-  Lemma ctx_ok3_congr s s' : Forall2 (Rl u) s s' -> ctx_ok3 u s' = ctx_ok3 u s.
+  Lemma start_ok_congr p p' : orel p p' -> start_ok u p' = start_ok u p.
   Proof.
-    intros H. induction H as [|a c l l' Hac Hl IH]; [reflexivity|].
-    assert (HF : Forall2 (Rl u) (a :: l) (c :: l')) by (constructor; assumption).
-    cbn [ctx_ok3]. unfold q_here. rewrite IH, (q_plural_congr _ _ HF), (q_apos_congr _ _ HF), (q_hex_congr _ _ HF).
-    reflexivity.
+    destruct p as [a|]; destruct p' as [c|]; cbn [orel start_ok]; try contradiction; [|reflexivity].
+    intros H. rewrite (Rl_wch u a c H). reflexivity.
   Qed.
+
+  Lemma ctx_ok3_congr : forall s s', Forall2 (Rl u) s s' -> forall p p', orel p p' -> ctx_ok3 u p' s' = ctx_ok3 u p s.
+  Proof.
+    intros s s' H. induction H as [|a c l l' Hac Hl IH]; intros p p' Ho; [reflexivity|].
+    assert (HF : Forall2 (Rl u) (a :: l) (c :: l')) by (constructor; assumption).
+    cbn [ctx_ok3]. unfold q_here.
+    pose proof (IH (Some a) (Some c) Hac) as E0. pose proof (q_plural_congr _ _ HF) as E1.
+    pose proof (q_apos_congr _ _ HF) as E2. pose proof (q_hex_congr _ _ HF) as E3.
+    unfold text, char in *. rewrite E0, (start_ok_congr p p' Ho), E1, E2, E3. reflexivity.
+  Qed.
+
+  Lemma ctx_ok3_congr0 s s' : Forall2 (Rl u) s s' -> ctx_ok3 u None s' = ctx_ok3 u None s.
+  Proof. intros H. apply (ctx_ok3_congr s s' H None None I). Qed.
 End Alnum.
 
 Theorem lex_alnum_stable u (s s' : text) : Forall2 (Rl u) s s' -> Alnum u s -> Alnum u s' ->
@@ -695,11 +965,12 @@ Proof.
   destruct Hcl as [W|[I|O]]; [rewrite W; reflexivity|rewrite I|rewrite O]; rewrite ?orb_true_r; reflexivity.
 Qed.
 
-Lemma dotted_ctx3 u : forall s, Forall (fun c => char2 u c = true) s -> ctx_ok s = true -> ctx_ok3 u s = true.
+Lemma dotted_ctx3 u : forall s prev, Forall (fun c => char2 u c = true) s -> ctx_ok s = true -> ctx_ok3 u prev s = true.
 Proof.
-  induction s as [|c r IH]; intros HP HC; [reflexivity|].
+  induction s as [|c r IH]; intros prev HP HC; [reflexivity|].
   inversion HP as [|c' r' Pc Pr]; subst. cbn [ctx_ok] in HC. apply andb_prop in HC. destruct HC as [HC0 HC1].
-  apply negb_true_iff in HC0. cbn [ctx_ok3]. rewrite (IH Pr HC1), andb_true_r. apply negb_true_iff.
+  apply negb_true_iff in HC0. cbn [ctx_ok3]. pose proof (IH (Some c) Pr HC1) as E0. unfold text, char in *. rewrite E0, andb_true_r. apply negb_true_iff.
+  apply andb_false_intro2.
   destruct (char2_parts u c Pc) as [_ [Dc _]].
   assert (A39 : forall c1 t, r = c1 :: t -> ceq c1 39 = false).
   { intros c1 t ->. inversion Pr; subst. unfold ceq. rewrite N.eqb_sym. apply (char2_not_bad u c1 39); [assumption|cbn; tauto]. }
@@ -741,11 +1012,11 @@ Proof.
   destruct Hcl as [W|[I|O]]; [rewrite W; reflexivity|rewrite I|rewrite O]; rewrite ?orb_true_r; reflexivity.
 Qed.
 
-Lemma plain_ctx3 u : forall s, Plain u s -> ctx_ok3 u s = true.
+Lemma plain_ctx3 u : forall s prev, Plain u s -> ctx_ok3 u prev s = true.
 Proof.
-  induction s as [|c r IH]; intros HP; [reflexivity|].
+  induction s as [|c r IH]; intros prev HP; [reflexivity|].
   pose proof HP as HP0. inversion HP0 as [|c' r' Pc Pr]; subst.
-  cbn [ctx_ok3]. rewrite (IH Pr), andb_true_r. apply negb_true_iff.
+  cbn [ctx_ok3]. pose proof (IH (Some c) Pr) as E0. unfold text, char in *. rewrite E0, andb_true_r. apply negb_true_iff. apply andb_false_intro2.
   destruct (plain_parts u c Pc) as [_ [Dc _]].
   assert (A39 : forall c1 t, r = c1 :: t -> ceq c1 39 = false).
   { intros c1 t ->. inversion Pr; subst. unfold ceq. rewrite N.eqb_sym. apply (plain_not_bad u c1 39); [assumption|cbn; tauto]. }
@@ -761,3 +1032,6 @@ Proof.
   - eapply Forall_impl; [|exact H]. intros a. apply plain_char_char3.
   - apply plain_ctx3. exact H.
 Qed.
+
+Theorem alnum_contains u s : plain_text u s = true \/ dotted_text u s = true -> alnum_text u s = true.
+Proof. intros [H|H]; [apply plain_alnum|apply dotted_alnum]; exact H. Qed.
